@@ -321,12 +321,13 @@ def build(case):
     if k == "post":
         return scen.rand_sign(rng, 5) if rng.random() < 0.5 else scen.rand_light(rng, 6)
     if k == "obstacle":
-        unc = rng.random() < 0.3
+        # trajectories that mix exact and uncertain states (growing uncertainty) need the uncertain stream
+        unc = rng.random() < (0.6 if case.get("role") == "dynamic" else 0.3)
         return scen.rand_obstacle(rng, 77, role=case.get("role"),
                                   shape_kinds=("rect", "circ", "poly") if unc else ("rect", "circ", "poly", "group"),
                                   uncertain=unc)
     if k == "scenario":
-        unc = rng.random() < 0.3
+        unc = rng.random() < 0.5
         sc = scen.rand_scenario(rng, n_obstacles=0, uncertain=unc)
         roles = case["roles"]
         for i, r in enumerate(roles):
